@@ -71,11 +71,16 @@ def check_valid(case):
     spec = GS.Spec(case["merged"])
     base = GS.Spec(case["base"])
     vios = []
-    for ignore in case["ignore_options"]:
+    # user supplied implementations correspond to the *base* definitions; extensions are applied on top.  The same
+    # objects are handed to every build of the case (and to one repeated build): building must not consume them
+    supplied = _additional(base, case["additional"]) if case.get("additional") else None
+    options = list(case["ignore_options"])
+    if supplied and case["n_ext"] and False in options:
+        options.append(False)
+    for ignore in options:
         kw = {"ignore_extensions": ignore}
-        if case.get("additional"):
-            # user supplied implementations correspond to the *base* definitions; extensions are applied on top
-            kw["additional_types"] = _additional(base, case["additional"])
+        if supplied:
+            kw["additional_types"] = supplied
         try:
             schema = build_schema(case["text"], **kw)
         except GraphQLError as e:
@@ -124,6 +129,12 @@ def check_valid(case):
         if not ds:
             for p in SS.closed(schema)[:2]:
                 vios.append(("C11/not-closed", p))
+    for t in supplied or []:
+        if hasattr(t, "values"):
+            names = [v.name for v in t.values]
+            want_names = [v["name"] for v in base["types"][t.name]["values"]]
+            if names != want_names:
+                vios.append(("C11/supplied-additional-type-modified", "%s: values %r, supplied as %r" % (t.name, names, want_names)))
     return vios
 
 
